@@ -9,7 +9,7 @@
 (* is printed as a line  <<"FAIL", "Cxx", i>> / <<"DRIFT", i, field>>, and  *)
 (* counters are printed by the POSTCONDITION, so one pass reports them all. *)
 (***************************************************************************)
-EXTENDS Props, Json, IOUtils, TLCExt
+EXTENDS Decode
 
 CONSTANTS Check        \* set of property names to evaluate, e.g. {"C03","C11","REF"}
 
@@ -20,39 +20,6 @@ ZeroRegs == \A k \in {1, 11, 13, 14, 15, 16, 17, 18, 19, 20, 21, 30} : TLCSet(k,
 Init == ZeroRegs /\ i \in 1..Len(Recs)
 Next == UNCHANGED i
 Spec == Init /\ [][Next]_i
-
-Rng(s) == {s[k] : k \in DOMAIN s}
-StrSet(s) == {s[k] : k \in DOMAIN s}
-
-\* JSON state -> observable record of Props.tla
-ShapeIdx(k) == CASE k = "circ" -> 1 [] k = "perim" -> 2 [] k = "axes" -> 3
-DecO(j) ==
-    [time |-> [n \in Node |-> j.time[n]],
-     E    |-> {<<e[1], e[2]>> : e \in Rng(j.E)},
-     tid  |-> [n \in Node |-> j.tid[n]],
-     lid  |-> [n \in Node |-> j.lid[n]],
-     t2n  |-> {<<p[1], p[2]>> : p \in Rng(j.t2n)},
-     l2n  |-> {<<p[1], p[2]>> : p \in Rng(j.l2n)},
-     maxT |-> j.maxT, maxL |-> j.maxL,
-     cust |-> [n \in Node |-> j.cust[n]],
-     pos  |-> [n \in Node |-> [d \in 1..Len(j.pos[n]) |-> <<j.pos[n][d][1], j.pos[n][d][2]>>]],
-     area |-> [n \in Node |-> j.area[n]],
-     iou  |-> [e \in Node \X Node |->
-                 IF \E r \in Rng(j.iou) : r[1] = e[1] /\ r[2] = e[2]
-                 THEN LET r == CHOOSE r \in Rng(j.iou) : r[1] = e[1] /\ r[2] = e[2] IN <<r[3], r[4]>>
-                 ELSE NoIoU],
-     ecust |-> [e \in Node \X Node |->
-                 IF \E r \in Rng(j.ecust) : r[1] = e[1] /\ r[2] = e[2]
-                 THEN (CHOOSE r \in Rng(j.ecust) : r[1] = e[1] /\ r[2] = e[2])[3] ELSE None],
-     seg  |-> [q \in Pix |-> j.seg[q]],
-     act  |-> Rng(j.act), reg |-> Rng(j.reg),
-     \* shape features: stored digest (shpv) and, through the from-scratch digest, freshness (shp)
-     shpv |-> [k \in ShapeKeys |-> [n \in Node |-> j.shpv[ShapeIdx(k)][n]]],
-     shp  |-> [k \in ShapeKeys |-> [n \in Node |->
-                 IF j.shpv[ShapeIdx(k)][n] = "" THEN NoShape
-                 ELSE IF j.shpv[ShapeIdx(k)][n] = j.shpr[ShapeIdx(k)][n]
-                      THEN {q \in Pix : j.seg[q] = n /\ FrameOf(q) = j.time[n]} ELSE {-1}]],
-     ulen |-> j.ulen, rlen |-> j.rlen]
 
 \* lookups are lists in the code: duplicates are visible only before the set conversion
 NoDupLookups(j) == Cardinality({<<p[1], p[2]>> : p \in Rng(j.t2n)}) = Len(j.t2n)
